@@ -111,7 +111,7 @@ pub fn checks(tier: Tier) -> Vec<Check> {
         Check {
             name: "C16.roundtrip".into(),
             strategy: roundtrip_strategy(),
-            cases: tier.scale(15_000, 20),
+            cases: tier.scale(60_000, 10),
             exec: Box::new(crate::ops::exec),
             oracle: Box::new(crate::mops::oracle),
             classify: Box::new(classify),
@@ -122,7 +122,7 @@ pub fn checks(tier: Tier) -> Vec<Check> {
         Check {
             name: "C16.deserialize-validates".into(),
             strategy: de_strategy(),
-            cases: tier.scale(25_000, 20),
+            cases: tier.scale(100_000, 10),
             exec: Box::new(crate::ops::exec),
             oracle: Box::new(crate::mops::oracle),
             classify: Box::new(classify),
@@ -133,7 +133,7 @@ pub fn checks(tier: Tier) -> Vec<Check> {
         Check {
             name: "C16.raw-wire".into(),
             strategy: raw_strategy(),
-            cases: tier.scale(3_000, 30),
+            cases: tier.scale(12_000, 10),
             exec: Box::new(crate::ops::exec),
             oracle: Box::new(crate::mops::serde_ops::oracle_raw),
             classify: Box::new(classify),
